@@ -87,8 +87,12 @@ Definition communism (infos : list info) (need total limit : Z) : result :=
 (* ---- global.go ---- *)
 Definition glob_key (x : info) : f64 := fadd (usage x) (rate x).
 Definition glob_less (a b : info) : bool := flt (glob_key a) (glob_key b).
+(* a float64 written to memory is its 64-bit pattern; [fstore] is the identity
+   (Strategy/Proofs: fstore_id) and only keeps evaluation fast by dropping the
+   proof term Flocq attaches to a computed float *)
+Definition fstore (f : f64) : f64 := fb (fbits f).
 Definition glob_step (x : info) : info :=
-  mkInfo (name x) (fadd (usage x) (rate x)) (rate x) (cap x - 1) (cnt x).
+  mkInfo (name x) (fstore (fadd (usage x) (rate x))) (rate x) (cap x - 1) (cnt x).
 
 Fixpoint glob_loop (k : nat) (h : list info) (dep : plan) : result :=
   match k with
@@ -111,7 +115,7 @@ Definition global (infos : list info) (need total : Z) : result :=
 
 (* ---- drained.go ---- *)
 Definition drained_less (a b : info) : bool :=
-  if cap a <? cap b then true else fgt (usage a) (usage b).
+  if negb (cap a =? cap b) then cap a <? cap b else fgt (usage a) (usage b).
 
 Fixpoint drained_loop (l : list info) (need : Z) (dep : plan) : result :=
   match l with
@@ -154,8 +158,8 @@ Definition average (infos : list info) (need limit : Z) : result * list info :=
 Definition fill_less (a b : info) : bool :=
   if cnt a =? cnt b then cap a >? cap b else cnt a >? cnt b.
 
-(* info.Count+info.Capacity >= need, in int64 arithmetic *)
-Definition fillable (need : Z) (x : info) : bool := wrap64 (cnt x + cap x) >=? need.
+(* info.Capacity >= need-info.Count  (need >= 1 and Count >= 0: the difference cannot overflow) *)
+Definition fillable (need : Z) (x : info) : bool := cap x >=? need - cnt x.
 
 Fixpoint fill_loop (l : list info) (need limit : Z) (dep : plan) (todo : Z) : result :=
   match l with
@@ -196,6 +200,32 @@ Definition deploy_full (s : strategy) (count limit : Z) (infos : list info) (tot
     end
   end.
 Definition deploy s count limit infos total : result := fst (deploy_full s count limit infos total).
+
+(* ---- the two comparisons as they were before the repairs (kept for the record:
+        Strategy/Proofs.v refutes C02 / C03 for them with concrete witnesses) ---- *)
+Definition drained_less_old (a b : info) : bool :=
+  if cap a <? cap b then true else fgt (usage a) (usage b).
+Definition drained_old (infos : list info) (need total : Z) : result :=
+  if total <? need then Err EInsufficientResource else
+  drained_from (gosort drained_less_old infos) need total.
+(* info.Count+info.Capacity >= need, in int64 arithmetic *)
+Definition fillable_old (need : Z) (x : info) : bool := wrap64 (cnt x + cap x) >=? need.
+Fixpoint fill_loop_old (l : list info) (need limit : Z) (dep : plan) (todo : Z) : result :=
+  match l with
+  | [] => Err EInsufficientResource
+  | x :: t =>
+    if fillable_old need x then
+      let dep' := madd dep (name x) (Z.max (need - cnt x) 0) in
+      let todo' := todo + mget dep' (name x) in
+      let limit' := limit - 1 in
+      if limit' =? 0 then (if todo' =? 0 then AlreadyFilled dep' else Ok dep')
+      else fill_loop_old t need limit' dep' todo'
+    else fill_loop_old t need limit dep todo
+  end.
+Definition fill_old (infos : list info) (need limit : Z) : result :=
+  let limit' := each_limit infos limit in
+  if Z.of_nat (length infos) <? limit' then Err EInsufficientResource else
+  fill_loop_old (gosort fill_less infos) need limit' [] 0.
 
 (* ======================================================================== *)
 (* Correspondence cases                                                      *)
@@ -389,7 +419,7 @@ Definition C02_ok (c : case) : bool :=
 
 (* ---- C03 ---- *)
 Fixpoint iter_add (k : nat) (u r : f64) : f64 :=
-  match k with O => u | S k' => iter_add k' (fadd u r) r end.
+  match k with O => u | S k' => iter_add k' (fstore (fadd u r)) r end.
 Definition usage_fin (p : plan) (x : info) : f64 := iter_add (Z.to_nat (mget p (name x))) (usage x) (rate x).
 
 Definition all_pairs (f : info -> info -> bool) (l : list info) : bool :=
